@@ -39,6 +39,28 @@ Source items (file :: item, line, hash of the item's source text):
   barter/src/statistic/metric/drawdown/mean.rs :: impl MeanDrawdownGenerator :: fn init  (line 23)  sha256[:16]=98e1a5aff9039763
   barter/src/statistic/metric/drawdown/mean.rs :: impl MeanDrawdownGenerator :: fn update  (line 34)  sha256[:16]=1905809bca2b9adc
   barter/src/statistic/metric/drawdown/mean.rs :: impl MeanDrawdownGenerator :: fn generate  (line 63)  sha256[:16]=bdfc0e297d10b320
+  barter-instrument/src/lib.rs :: enum Side  (line 92)  sha256[:16]=2619c9517f1f65fe
+  barter-instrument/src/asset/mod.rs :: struct QuoteAsset  (line 132)  sha256[:16]=67544ada735367bd
+  barter-execution/src/trade.rs :: opaque TradeId  (line 11)  sha256[:16]=549ed99d4dc4fda7
+  barter-execution/src/order/id.rs :: opaque OrderId  (line 57)  sha256[:16]=0994791edb069349
+  barter-execution/src/order/id.rs :: opaque StrategyId  (line 68)  sha256[:16]=64e12e76c21c866d
+  barter-execution/src/trade.rs :: struct AssetFees  (line 57)  sha256[:16]=2db6c6402abbd85a
+  barter-execution/src/trade.rs :: impl Default for AssetFees<QuoteAsset> :: fn default  (line 72)  sha256[:16]=a7e4779178717563
+  barter-execution/src/trade.rs :: struct Trade  (line 22)  sha256[:16]=1bd02bfa901a458a
+  barter/src/engine/state/position.rs :: fn calculate_price_entry_average  (line 474)  sha256[:16]=7bab5edeef0573ce
+  barter/src/engine/state/position.rs :: fn approximate_remaining_exit_fees  (line 517)  sha256[:16]=65ee8716d0cd0119
+  barter/src/engine/state/position.rs :: fn calculate_pnl_unrealised  (line 492)  sha256[:16]=498565041f1b3025
+  barter/src/engine/state/position.rs :: fn calculate_pnl_realised  (line 527)  sha256[:16]=0b805a56d73c60b5
+  barter/src/engine/state/position.rs :: struct Position  (line 166)  sha256[:16]=0e7e1d0d46ad5769
+  barter/src/engine/state/position.rs :: struct PositionExited  (line 410)  sha256[:16]=576d7bce5e44bab2
+  barter/src/engine/state/position.rs :: impl From for Position :: fn from  (line 380)  sha256[:16]=16588da86602a97c
+  barter/src/engine/state/position.rs :: impl From for PositionExited :: fn from  (line 447)  sha256[:16]=7a7f356abb51d31f
+  barter/src/engine/state/position.rs :: impl Position :: fn update_price_entry_average  (line 333)  sha256[:16]=5e9943baccbb1bfa
+  barter/src/engine/state/position.rs :: impl Position :: fn update_pnl_unrealised  (line 347)  sha256[:16]=f8b9da79ff833cc8
+  barter/src/engine/state/position.rs :: impl Position :: fn update_pnl_realised  (line 359)  sha256[:16]=20cf2a754bbd6ed3
+  barter/src/engine/state/position.rs :: impl Position :: fn update_from_trade  (line 227)  sha256[:16]=0ad4868c706b48bf
+  barter/src/engine/state/position.rs :: struct PositionManager  (line 15)  sha256[:16]=d9894f534e2235e0
+  barter/src/engine/state/position.rs :: impl PositionManager :: fn update_from_trade  (line 32)  sha256[:16]=e0d62c34f28709b5
 -/
 namespace BarterModel.Generated.Machines
 
@@ -55,6 +77,11 @@ namespace BarterModel.Generated.Machines
   `opt.take()` returns the field's value and writes `none`.
 * `fn f(&mut self, a) -> R` is `f (self) (a) : S × R` (`S` alone for `R = ()`).
 -/
+
+/-- A Rust panic site (`unreachable!(..)`, `panic!(..)`) as a value: an unspecified inhabitant. Nothing can be
+proved about it, so an agreement theorem about a function that contains one only holds if the site is dead
+code (`Vec<T>` is `List T`, `.push(x)` appends; type parameters stay parameters with decidable equality). -/
+opaque Rust.unreachable {α : Type} [Inhabited α] : α
 
 /-- `Decimal::abs`. -/
 def Decimal.abs (x : Rat) : Rat := if x < 0 then -x else x
@@ -125,17 +152,17 @@ def BinanceSpotOrderBookL2Sequencer.validate_sequence (self : BinanceSpotOrderBo
       (match (BinanceSpotOrderBookL2Sequencer.validate_first_update self update) with
       | Except.error err_1 => (self, (Except.error err_1))
       | Except.ok _ =>
-        let self := { self with updates_processed := (self.updates_processed + 1) }
-        let self := { self with prev_last_update_id := self.last_update_id }
-        let self := { self with last_update_id := update.last_update_id }
+        let self : BinanceSpotOrderBookL2Sequencer := { self with updates_processed := (self.updates_processed + 1) }
+        let self : BinanceSpotOrderBookL2Sequencer := { self with prev_last_update_id := self.last_update_id }
+        let self : BinanceSpotOrderBookL2Sequencer := { self with last_update_id := update.last_update_id }
         (self, (Except.ok (some update))))
     else
       (match (BinanceSpotOrderBookL2Sequencer.validate_next_update self update) with
       | Except.error err_2 => (self, (Except.error err_2))
       | Except.ok _ =>
-        let self := { self with updates_processed := (self.updates_processed + 1) }
-        let self := { self with prev_last_update_id := self.last_update_id }
-        let self := { self with last_update_id := update.last_update_id }
+        let self : BinanceSpotOrderBookL2Sequencer := { self with updates_processed := (self.updates_processed + 1) }
+        let self : BinanceSpotOrderBookL2Sequencer := { self with prev_last_update_id := self.last_update_id }
+        let self : BinanceSpotOrderBookL2Sequencer := { self with last_update_id := update.last_update_id }
         (self, (Except.ok (some update))))))
 
 /-! ## barter-data/src/exchange/binance/futures/l2.rs -/
@@ -185,15 +212,15 @@ def BinanceFuturesUsdOrderBookL2Sequencer.validate_sequence (self : BinanceFutur
       (match (BinanceFuturesUsdOrderBookL2Sequencer.validate_first_update self update) with
       | Except.error err_1 => (self, (Except.error err_1))
       | Except.ok _ =>
-        let self := { self with updates_processed := (self.updates_processed + 1) }
-        let self := { self with last_update_id := update.last_update_id }
+        let self : BinanceFuturesUsdOrderBookL2Sequencer := { self with updates_processed := (self.updates_processed + 1) }
+        let self : BinanceFuturesUsdOrderBookL2Sequencer := { self with last_update_id := update.last_update_id }
         (self, (Except.ok (some update))))
     else
       (match (BinanceFuturesUsdOrderBookL2Sequencer.validate_next_update self update) with
       | Except.error err_2 => (self, (Except.error err_2))
       | Except.ok _ =>
-        let self := { self with updates_processed := (self.updates_processed + 1) }
-        let self := { self with last_update_id := update.last_update_id }
+        let self : BinanceFuturesUsdOrderBookL2Sequencer := { self with updates_processed := (self.updates_processed + 1) }
+        let self : BinanceFuturesUsdOrderBookL2Sequencer := { self with last_update_id := update.last_update_id }
         (self, (Except.ok (some update))))))
 
 /-! ## barter/src/lib.rs -/
@@ -238,27 +265,27 @@ def DrawdownGenerator.generate (self : DrawdownGenerator) : DrawdownGenerator ×
 
 /-- generated from `impl DrawdownGenerator :: fn update` (barter/src/statistic/metric/drawdown/mod.rs:60) -/
 def DrawdownGenerator.update (self : DrawdownGenerator) (point : Timed Rat) : DrawdownGenerator × Option Drawdown :=
-  let self := { self with time_now := point.time }
+  let self : DrawdownGenerator := { self with time_now := point.time }
   (match self.peak with
   | none =>
-    let self := { self with peak := (some point.value) }
-    let self := { self with time_peak := (some point.time) }
+    let self : DrawdownGenerator := { self with peak := (some point.value) }
+    let self : DrawdownGenerator := { self with time_peak := (some point.time) }
     (self, none)
   | some peak =>
     (if (point.value > peak) then
       let call_1 := DrawdownGenerator.generate self
-      let self := call_1.1
+      let self : DrawdownGenerator := call_1.1
       let ended_drawdown : Option Drawdown := call_1.2
-      let self := { self with peak := (some point.value) }
-      let self := { self with time_peak := (some point.time) }
-      let self := { self with drawdown_max := 0 }
+      let self : DrawdownGenerator := { self with peak := (some point.value) }
+      let self : DrawdownGenerator := { self with time_peak := (some point.time) }
+      let self : DrawdownGenerator := { self with drawdown_max := 0 }
       (self, ended_drawdown)
     else
       let drawdown_current : Option Rat := (Decimal.checked_div (peak - point.value) peak)
       (match drawdown_current with
       | some drawdown_current_1 =>
         (if (drawdown_current_1 > self.drawdown_max) then
-          let self := { self with drawdown_max := drawdown_current_1 }
+          let self : DrawdownGenerator := { self with drawdown_max := drawdown_current_1 }
           (self, none)
         else
           (self, none))
@@ -284,7 +311,7 @@ def MaxDrawdownGenerator.init (drawdown : Drawdown) : MaxDrawdownGenerator :=
 /-- generated from `impl MaxDrawdownGenerator :: fn update` (barter/src/statistic/metric/drawdown/max.rs:31) -/
 def MaxDrawdownGenerator.update (self : MaxDrawdownGenerator) (next_drawdown : Drawdown) : MaxDrawdownGenerator :=
   let taken_1 : Option MaxDrawdown := self.max
-  let self := { self with max := none }
+  let self : MaxDrawdownGenerator := { self with max := none }
   let max : MaxDrawdown := (match taken_1 with
   | some current =>
       (if ((Decimal.abs next_drawdown.value) > (Decimal.abs current.f0.value)) then
@@ -293,7 +320,7 @@ def MaxDrawdownGenerator.update (self : MaxDrawdownGenerator) (next_drawdown : D
         current)
   | none =>
       (MaxDrawdown.mk next_drawdown))
-  let self := { self with max := (some max) }
+  let self : MaxDrawdownGenerator := { self with max := (some max) }
   self
 
 /-- generated from `impl MaxDrawdownGenerator :: fn generate` (barter/src/statistic/metric/drawdown/max.rs:47) -/
@@ -324,29 +351,248 @@ def MeanDrawdownGenerator.init (drawdown : Drawdown) : MeanDrawdownGenerator :=
 
 /-- instance of the generic `welford_online.calculate_mean` at `Decimal` -/
 def welford_online.calculate_mean_Decimal (prev_mean : Rat) (next_value : Rat) (count : Rat) : Rat :=
-  let prev_mean := (prev_mean + ((next_value - prev_mean) / count))
+  let prev_mean : Rat := (prev_mean + ((next_value - prev_mean) / count))
   prev_mean
 
 /-- instance of the generic `welford_online.calculate_mean` at `i64` -/
 def welford_online.calculate_mean_i64 (prev_mean : Int) (next_value : Int) (count : Int) : Int :=
-  let prev_mean := (prev_mean + (Int.tdiv (next_value - prev_mean) count))
+  let prev_mean : Int := (prev_mean + (Int.tdiv (next_value - prev_mean) count))
   prev_mean
 
 /-- generated from `impl MeanDrawdownGenerator :: fn update` (barter/src/statistic/metric/drawdown/mean.rs:34) -/
 def MeanDrawdownGenerator.update (self : MeanDrawdownGenerator) (next_drawdown : Drawdown) : MeanDrawdownGenerator :=
-  let self := { self with count := (self.count + 1) }
+  let self : MeanDrawdownGenerator := { self with count := (self.count + 1) }
   let taken_1 : Option MeanDrawdown := self.mean_drawdown
-  let self := { self with mean_drawdown := none }
+  let self : MeanDrawdownGenerator := { self with mean_drawdown := none }
   let mean_drawdown : MeanDrawdown := (match taken_1 with
   | some (⟨mean_drawdown, mean_drawdown_ms⟩) =>
       { mean_drawdown := (welford_online.calculate_mean_Decimal mean_drawdown next_drawdown.value ((self.count : Nat) : Rat)), mean_drawdown_ms := (welford_online.calculate_mean_i64 mean_drawdown_ms (Drawdown.duration next_drawdown) ((self.count : Nat) : Int)) : MeanDrawdown }
   | none =>
       { mean_drawdown := next_drawdown.value, mean_drawdown_ms := (Drawdown.duration next_drawdown) : MeanDrawdown })
-  let self := { self with mean_drawdown := (some mean_drawdown) }
+  let self : MeanDrawdownGenerator := { self with mean_drawdown := (some mean_drawdown) }
   self
 
 /-- generated from `impl MeanDrawdownGenerator :: fn generate` (barter/src/statistic/metric/drawdown/mean.rs:63) -/
 def MeanDrawdownGenerator.generate (self : MeanDrawdownGenerator) : Option MeanDrawdown :=
   self.mean_drawdown
+
+/-! ## barter-instrument/src/lib.rs -/
+
+/-- generated from `enum Side` (barter-instrument/src/lib.rs:92) -/
+inductive Side where
+  | Buy
+  | Sell
+  deriving DecidableEq, Repr
+
+/-! ## barter-instrument/src/asset/mod.rs -/
+
+/-- generated from `struct QuoteAsset` (barter-instrument/src/asset/mod.rs:132) -/
+inductive QuoteAsset where
+  | mk
+  deriving DecidableEq, Repr
+
+/-! ## barter-execution/src/trade.rs -/
+
+-- an identifier type: its values are only stored, cloned and compared; any injective coding would do
+/-- generated from `opaque TradeId` (barter-execution/src/trade.rs:11) -/
+abbrev TradeId := Nat
+
+/-! ## barter-execution/src/order/id.rs -/
+
+-- an identifier type: its values are only stored, cloned and compared; any injective coding would do
+/-- generated from `opaque OrderId` (barter-execution/src/order/id.rs:57) -/
+abbrev OrderId := Nat
+
+-- an identifier type: its values are only stored, cloned and compared; any injective coding would do
+/-- generated from `opaque StrategyId` (barter-execution/src/order/id.rs:68) -/
+abbrev StrategyId := Nat
+
+/-! ## barter-execution/src/trade.rs -/
+
+/-- generated from `struct AssetFees` (barter-execution/src/trade.rs:57) -/
+structure AssetFees (AssetKey : Type) where
+  asset : AssetKey
+  fees : Rat
+  deriving DecidableEq, Repr
+
+/-- generated from `impl Default for AssetFees<QuoteAsset> :: fn default` (barter-execution/src/trade.rs:72) -/
+def AssetFees.default  : AssetFees QuoteAsset :=
+  { asset := QuoteAsset.mk, fees := 0 : AssetFees QuoteAsset }
+
+/-- generated from `struct Trade` (barter-execution/src/trade.rs:22) -/
+structure Trade (AssetKey : Type) (InstrumentKey : Type) where
+  id : TradeId
+  order_id : OrderId
+  instrument : InstrumentKey
+  strategy : StrategyId
+  time_exchange : Int
+  side : Side
+  price : Rat
+  quantity : Rat
+  fees : AssetFees AssetKey
+  deriving DecidableEq, Repr
+
+/-! ## barter/src/engine/state/position.rs -/
+
+/-- generated from `fn calculate_price_entry_average` (barter/src/engine/state/position.rs:474) -/
+def calculate_price_entry_average (current_price_entry_average : Rat) (current_quantity_abs : Rat) (trade_price : Rat) (trade_quantity_abs : Rat) : Rat :=
+  (if ((current_quantity_abs = 0) ∧ (trade_quantity_abs = 0)) then
+    0
+  else
+    let current_value : Rat := (current_price_entry_average * current_quantity_abs)
+    let trade_value : Rat := (trade_price * trade_quantity_abs)
+    ((current_value + trade_value) / (current_quantity_abs + trade_quantity_abs)))
+
+/-- generated from `fn approximate_remaining_exit_fees` (barter/src/engine/state/position.rs:517) -/
+def approximate_remaining_exit_fees (quantity_abs : Rat) (quantity_abs_max : Rat) (fees_enter : Rat) : Rat :=
+  ((quantity_abs / quantity_abs_max) * fees_enter)
+
+/-- generated from `fn calculate_pnl_unrealised` (barter/src/engine/state/position.rs:492) -/
+def calculate_pnl_unrealised (position_side : Side) (price_entry_average : Rat) (quantity_abs : Rat) (quantity_abs_max : Rat) (fees_enter : Rat) (price : Rat) : Rat :=
+  let approx_exit_fees : Rat := (approximate_remaining_exit_fees quantity_abs quantity_abs_max fees_enter)
+  let value_quote_current : Rat := (quantity_abs * price)
+  let value_quote_entry : Rat := (quantity_abs * price_entry_average)
+  (match position_side with
+  | Side.Buy =>
+      ((value_quote_current - value_quote_entry) - approx_exit_fees)
+  | Side.Sell =>
+      ((value_quote_entry - value_quote_current) - approx_exit_fees))
+
+/-- generated from `fn calculate_pnl_realised` (barter/src/engine/state/position.rs:527) -/
+def calculate_pnl_realised (position_side : Side) (price_entry_average : Rat) (closed_quantity : Rat) (closed_price : Rat) (closed_fee : Rat) : Rat :=
+  let close_quantity : Rat := (Decimal.abs closed_quantity)
+  let value_quote_closed : Rat := (close_quantity * closed_price)
+  let value_quote_entry : Rat := (close_quantity * price_entry_average)
+  (match position_side with
+  | Side.Buy =>
+      ((value_quote_closed - value_quote_entry) - closed_fee)
+  | Side.Sell =>
+      ((value_quote_entry - value_quote_closed) - closed_fee))
+
+/-- generated from `struct Position` (barter/src/engine/state/position.rs:166) -/
+structure Position (AssetKey : Type) (InstrumentKey : Type) where
+  instrument : InstrumentKey
+  side : Side
+  price_entry_average : Rat
+  quantity_abs : Rat
+  quantity_abs_max : Rat
+  pnl_unrealised : Rat
+  pnl_realised : Rat
+  fees_enter : AssetFees AssetKey
+  fees_exit : AssetFees AssetKey
+  time_enter : Int
+  time_exchange_update : Int
+  trades : List TradeId
+  deriving DecidableEq, Repr
+
+/-- generated from `struct PositionExited` (barter/src/engine/state/position.rs:410) -/
+structure PositionExited (AssetKey : Type) (InstrumentKey : Type) where
+  instrument : InstrumentKey
+  side : Side
+  price_entry_average : Rat
+  quantity_abs_max : Rat
+  pnl_realised : Rat
+  fees_enter : AssetFees AssetKey
+  fees_exit : AssetFees AssetKey
+  time_enter : Int
+  time_exit : Int
+  trades : List TradeId
+  deriving DecidableEq, Repr
+
+/-- generated from `impl From for Position :: fn from` (barter/src/engine/state/position.rs:380) -/
+def Position.«from» {InstrumentKey : Type} [DecidableEq InstrumentKey] (trade : Trade QuoteAsset InstrumentKey) : Position QuoteAsset InstrumentKey :=
+  let trades : List TradeId := []
+  let trades : List TradeId := (trades ++ [trade.id])
+  { instrument := trade.instrument, side := trade.side, price_entry_average := trade.price, quantity_abs := (Decimal.abs trade.quantity), quantity_abs_max := (Decimal.abs trade.quantity), pnl_unrealised := 0, pnl_realised := (-trade.fees.fees), fees_enter := trade.fees, fees_exit := (AssetFees.default), time_enter := trade.time_exchange, time_exchange_update := trade.time_exchange, trades := trades : Position QuoteAsset InstrumentKey }
+
+/-- generated from `impl From for PositionExited :: fn from` (barter/src/engine/state/position.rs:447) -/
+def PositionExited.«from» {AssetKey : Type} [DecidableEq AssetKey] {InstrumentKey : Type} [DecidableEq InstrumentKey] (value : Position AssetKey InstrumentKey) : PositionExited AssetKey InstrumentKey :=
+  { instrument := value.instrument, side := value.side, price_entry_average := value.price_entry_average, quantity_abs_max := value.quantity_abs_max, pnl_realised := value.pnl_realised, fees_enter := value.fees_enter, fees_exit := value.fees_exit, time_enter := value.time_enter, time_exit := value.time_exchange_update, trades := value.trades : PositionExited AssetKey InstrumentKey }
+
+/-- generated from `impl Position :: fn update_price_entry_average` (barter/src/engine/state/position.rs:333) -/
+def Position.update_price_entry_average {InstrumentKey : Type} [DecidableEq InstrumentKey] (self : Position QuoteAsset InstrumentKey) (trade : Trade QuoteAsset InstrumentKey) : Position QuoteAsset InstrumentKey :=
+  let self : Position QuoteAsset InstrumentKey := { self with price_entry_average := (calculate_price_entry_average self.price_entry_average self.quantity_abs trade.price (Decimal.abs trade.quantity)) }
+  self
+
+/-- generated from `impl Position :: fn update_pnl_unrealised` (barter/src/engine/state/position.rs:347) -/
+def Position.update_pnl_unrealised {InstrumentKey : Type} [DecidableEq InstrumentKey] (self : Position QuoteAsset InstrumentKey) (price : Rat) : Position QuoteAsset InstrumentKey :=
+  let self : Position QuoteAsset InstrumentKey := { self with pnl_unrealised := (calculate_pnl_unrealised self.side self.price_entry_average self.quantity_abs self.quantity_abs_max self.fees_enter.fees price) }
+  self
+
+/-- generated from `impl Position :: fn update_pnl_realised` (barter/src/engine/state/position.rs:359) -/
+def Position.update_pnl_realised {InstrumentKey : Type} [DecidableEq InstrumentKey] (self : Position QuoteAsset InstrumentKey) (closed_quantity : Rat) (closed_price : Rat) (closed_fee : Rat) : Position QuoteAsset InstrumentKey :=
+  let self : Position QuoteAsset InstrumentKey := { self with pnl_realised := (self.pnl_realised + (calculate_pnl_realised self.side self.price_entry_average closed_quantity closed_price closed_fee)) }
+  self
+
+/-- generated from `impl Position :: fn update_from_trade` (barter/src/engine/state/position.rs:227) -/
+def Position.update_from_trade {InstrumentKey : Type} [DecidableEq InstrumentKey] (self : Position QuoteAsset InstrumentKey) (trade : Trade QuoteAsset InstrumentKey) : (Option (Position QuoteAsset InstrumentKey)) × (Option (PositionExited QuoteAsset InstrumentKey)) :=
+  (if (self.instrument ≠ trade.instrument) then
+    ((some self), none)
+  else
+    let self : Position QuoteAsset InstrumentKey := { self with trades := (self.trades ++ [trade.id]) }
+    (if (((self.side = Side.Buy) ∧ (trade.side = Side.Buy)) ∨ ((self.side = Side.Sell) ∧ (trade.side = Side.Sell))) then
+      let self : Position QuoteAsset InstrumentKey := (Position.update_price_entry_average self trade)
+      let self : Position QuoteAsset InstrumentKey := { self with quantity_abs := (self.quantity_abs + (Decimal.abs trade.quantity)) }
+      (if (self.quantity_abs > self.quantity_abs_max) then
+        let self : Position QuoteAsset InstrumentKey := { self with quantity_abs_max := self.quantity_abs }
+        let self : Position QuoteAsset InstrumentKey := { self with pnl_realised := (self.pnl_realised - trade.fees.fees) }
+        let self : Position QuoteAsset InstrumentKey := { self with fees_enter := { self.fees_enter with fees := (self.fees_enter.fees + trade.fees.fees) } }
+        let self : Position QuoteAsset InstrumentKey := { self with time_exchange_update := trade.time_exchange }
+        let self : Position QuoteAsset InstrumentKey := (Position.update_pnl_unrealised self trade.price)
+        ((some self), none)
+      else
+        let self : Position QuoteAsset InstrumentKey := { self with pnl_realised := (self.pnl_realised - trade.fees.fees) }
+        let self : Position QuoteAsset InstrumentKey := { self with fees_enter := { self.fees_enter with fees := (self.fees_enter.fees + trade.fees.fees) } }
+        let self : Position QuoteAsset InstrumentKey := { self with time_exchange_update := trade.time_exchange }
+        let self : Position QuoteAsset InstrumentKey := (Position.update_pnl_unrealised self trade.price)
+        ((some self), none))
+    else
+      (if ((((self.side = Side.Buy) ∧ (trade.side = Side.Sell)) ∨ ((self.side = Side.Sell) ∧ (trade.side = Side.Buy))) ∧ (self.quantity_abs > (Decimal.abs trade.quantity))) then
+        let self : Position QuoteAsset InstrumentKey := (Position.update_pnl_realised self trade.quantity trade.price trade.fees.fees)
+        let self : Position QuoteAsset InstrumentKey := { self with quantity_abs := (self.quantity_abs - (Decimal.abs trade.quantity)) }
+        let self : Position QuoteAsset InstrumentKey := { self with fees_exit := { self.fees_exit with fees := (self.fees_exit.fees + trade.fees.fees) } }
+        let self : Position QuoteAsset InstrumentKey := { self with time_exchange_update := trade.time_exchange }
+        let self : Position QuoteAsset InstrumentKey := (Position.update_pnl_unrealised self trade.price)
+        ((some self), none)
+      else
+        (if ((((self.side = Side.Buy) ∧ (trade.side = Side.Sell)) ∨ ((self.side = Side.Sell) ∧ (trade.side = Side.Buy))) ∧ (self.quantity_abs = (Decimal.abs trade.quantity))) then
+          let self : Position QuoteAsset InstrumentKey := { self with quantity_abs := (self.quantity_abs - (Decimal.abs trade.quantity)) }
+          let self : Position QuoteAsset InstrumentKey := { self with fees_exit := { self.fees_exit with fees := (self.fees_exit.fees + trade.fees.fees) } }
+          let self : Position QuoteAsset InstrumentKey := { self with time_exchange_update := trade.time_exchange }
+          let self : Position QuoteAsset InstrumentKey := (Position.update_pnl_realised self trade.quantity trade.price trade.fees.fees)
+          let self : Position QuoteAsset InstrumentKey := (Position.update_pnl_unrealised self trade.price)
+          (none, (some (PositionExited.«from» self)))
+        else
+          (if ((((self.side = Side.Buy) ∧ (trade.side = Side.Sell)) ∨ ((self.side = Side.Sell) ∧ (trade.side = Side.Buy))) ∧ (self.quantity_abs < (Decimal.abs trade.quantity))) then
+            let next_position_quantity : Rat := ((Decimal.abs trade.quantity) - self.quantity_abs)
+            let next_position_fee_enter : Rat := (trade.fees.fees * (next_position_quantity / (Decimal.abs trade.quantity)))
+            let next_position_trade : Trade QuoteAsset InstrumentKey := { id := trade.id, order_id := trade.order_id, instrument := trade.instrument, strategy := trade.strategy, time_exchange := trade.time_exchange, side := trade.side, price := trade.price, quantity := next_position_quantity, fees := { asset := trade.fees.asset, fees := next_position_fee_enter : AssetFees QuoteAsset } : Trade QuoteAsset InstrumentKey }
+            let fee_exit : Rat := (trade.fees.fees * (self.quantity_abs / (Decimal.abs trade.quantity)))
+            let self : Position QuoteAsset InstrumentKey := { self with fees_exit := { self.fees_exit with fees := (self.fees_exit.fees + fee_exit) } }
+            let self : Position QuoteAsset InstrumentKey := { self with time_exchange_update := trade.time_exchange }
+            let self : Position QuoteAsset InstrumentKey := (Position.update_pnl_realised self self.quantity_abs trade.price fee_exit)
+            let self : Position QuoteAsset InstrumentKey := { self with quantity_abs := 0 }
+            let self : Position QuoteAsset InstrumentKey := (Position.update_pnl_unrealised self trade.price)
+            ((some (Position.«from» next_position_trade)), (some (PositionExited.«from» self)))
+          else
+            Rust.unreachable)))))
+
+/-- generated from `struct PositionManager` (barter/src/engine/state/position.rs:15) -/
+structure PositionManager (InstrumentKey : Type) where
+  current : Option (Position QuoteAsset InstrumentKey)
+  deriving DecidableEq, Repr
+
+/-- generated from `impl PositionManager :: fn update_from_trade` (barter/src/engine/state/position.rs:32) -/
+def PositionManager.update_from_trade {InstrumentKey : Type} [DecidableEq InstrumentKey] (self : PositionManager InstrumentKey) (trade : Trade QuoteAsset InstrumentKey) : (PositionManager InstrumentKey) × Option (PositionExited QuoteAsset InstrumentKey) :=
+  let taken_1 : Option (Position QuoteAsset InstrumentKey) := self.current
+  let self : PositionManager InstrumentKey := { self with current := none }
+  (match (match taken_1 with
+  | some position =>
+      (Position.update_from_trade position trade)
+  | none =>
+      ((some (Position.«from» trade)), none)) with
+  | (current, closed) =>
+    let self : PositionManager InstrumentKey := { self with current := current }
+    (self, closed))
 
 end BarterModel.Generated.Machines
